@@ -91,6 +91,7 @@ func (r *Run) globalObj(g *ssa.Global) *Object {
 	t := g.Type().(*types.Pointer).Elem()
 	o := r.newObject(t, KGlobal, g.RelString(nil))
 	o.Owned = false
+	o.Global = g
 	r.globals[g] = o
 	// seeding models the package's own initialisation, not a store by the
 	// operation under test
@@ -113,7 +114,7 @@ func (r *Run) callFn(fn *ssa.Function, args []Value, bind []Value, pos token.Pos
 	if res, ok := r.intrinsic(fn, args); ok {
 		return res
 	}
-	if fn.Synthetic == "package initializer" && !r.eng.repoPkgs[fn.Pkg] {
+	if fn.Synthetic == "package initializer" && !r.eng.repoPkgs[fn.Pkg] && !r.initOK[fn.Pkg] {
 		return Tuple{}
 	}
 	if fn.Blocks == nil {
